@@ -1,7 +1,1245 @@
-//! C13 — not built yet.
-use lv_common::Ctx;
+//! C13 — Merkle, row and share proofs are position-binding and sound.
+//!
+//! Oracles (all on lv_gen::refs / lv_gen::proofrefs, sha2 only):
+//!  * MerkleProof: accepted  =>  index < total, leaf hash matches, and the RFC-6962 recomputation for that
+//!    (index, total) from the aunts yields the root; when total is the real leaf count and the root the real root,
+//!    accepted => the presented leaf equals leaves[index]. Honest proofs (every index) must verify.
+//!  * RowProof: honest proofs of every row range verify against dah.hash(); accepted => list lengths equal, the
+//!    span end-start+1 (computed without wrapping) equals the number of roots, every (root, merkle proof) pair passes
+//!    the reference, and (under the real hash) every proven root is a root of the DAH.
+//!  * ShareProof: honest proofs (NMT range proofs built by the reference, row proofs by the DAH) verify;
+//!    accepted => the row-proof conditions, one NMT proof per root, declared ranges non-empty and summing to the
+//!    number of shares, and every chunk of presented shares is a contiguous run of real leaves (same namespace)
+//!    of the axis with that root; an altered NMT inner node or merkle aunt of an honest proof => rejected.
+//!    NOT asserted (DESIGN §7): that merkle indices of a row proof equal start_row+i, nor that the NMT range start
+//!    equals the real column (the property does not state position binding for those).
+use celestia_proto::celestia::core::v1::proof::{NmtProof as RawNmtProof, Proof as RawMerkleProof, RowProof as RawRowProof, ShareProof as RawShareProof};
+use celestia_types::consts::appconsts::AppVersion;
+use celestia_types::hash::Hash;
+use celestia_types::nmt::NamespacedHashExt;
+use celestia_types::{MerkleProof, RowProof, ShareProof};
+use lv_common::prelude::*;
+use lv_common::{Prng, no_panic};
+use lv_gen::proofrefs::{Reject, axis_leaves, axis_nodes, ref_merkle_check, ref_nmt_range_proof, ref_row_proof_check};
+use lv_gen::refs;
+use lv_gen::square::{Square, SquareSpec, build_square, square_strategy, structured_square_strategy};
+use prost::Message;
 
-pub fn run(_ctx: &mut Ctx) {
-    eprintln!("C13: check not built yet");
-    std::process::exit(2);
+fn flip(v: &mut [u8], pos: usize, bit: u8) {
+    if !v.is_empty() {
+        let p = pos % v.len();
+        v[p] ^= 1 << (bit % 8);
+    }
+}
+
+// =================================================================================================== merkle
+
+#[derive(Clone, Copy, Debug, Serialize, Deserialize)]
+pub enum LeafKind {
+    /// random bytes, length 0..=64
+    Random,
+    /// length 0..=1: many equal and empty leaves
+    Short,
+    /// three distinct values only
+    Dups,
+    /// 32-byte leaves (look like hashes)
+    Fixed32,
+}
+
+#[derive(Clone, Debug, Serialize, Deserialize)]
+pub enum MMut {
+    Index(i64),
+    IndexRel(i32),
+    Total(i64),
+    TotalRel(i32),
+    TotalMul2,
+    IndexAndTotal { di: i32, dt: i32 },
+    AuntBit { i: u16, pos: u8, bit: u8 },
+    AuntDrop { i: u16 },
+    AuntDup { i: u16 },
+    AuntSwap { i: u16, j: u16 },
+    AuntReverse,
+    AuntAppend([u8; 32]),
+    AuntFromOther { i: u16, other: u16 },
+    AuntsOfOther { other: u16 },
+    LeafHashBit { pos: u8, bit: u8 },
+    LeafBit { pos: u16, bit: u8 },
+    LeafAppend(u8),
+    LeafEmpty,
+    /// present leaves[j] with the proof of i
+    LeafOther { j: u16 },
+    /// leaf and leaf_hash of j, index/total/aunts of i
+    LeafAndHashOther { j: u16 },
+    RootBit { pos: u8, bit: u8 },
+    ShortHash,
+}
+
+#[derive(Clone, Debug, Serialize, Deserialize)]
+pub struct MCase {
+    pub n: u16,
+    pub kind: LeafKind,
+    pub seed: u64,
+    pub idx: Vec<u16>,
+    pub muts: Vec<MMut>,
+}
+
+fn mmut_strategy() -> impl Strategy<Value = MMut> {
+    let big = prop_oneof![Just(i64::MAX), Just(u32::MAX as i64), Just(u32::MAX as i64 + 1), Just(-1i64), Just(0i64), Just(1i64), Just(i64::MIN), any::<i64>()];
+    prop_oneof![
+        2 => big.clone().prop_map(MMut::Index),
+        3 => (-4i32..=300).prop_map(MMut::IndexRel),
+        2 => big.prop_map(MMut::Total),
+        3 => (-3i32..=3).prop_map(MMut::TotalRel),
+        1 => Just(MMut::TotalMul2),
+        2 => (-3i32..=3, -3i32..=3).prop_map(|(di, dt)| MMut::IndexAndTotal { di, dt }),
+        3 => (any::<u16>(), 0u8..32, 0u8..8).prop_map(|(i, pos, bit)| MMut::AuntBit { i, pos, bit }),
+        2 => any::<u16>().prop_map(|i| MMut::AuntDrop { i }),
+        2 => any::<u16>().prop_map(|i| MMut::AuntDup { i }),
+        2 => (any::<u16>(), any::<u16>()).prop_map(|(i, j)| MMut::AuntSwap { i, j }),
+        1 => Just(MMut::AuntReverse),
+        1 => any::<[u8; 32]>().prop_map(MMut::AuntAppend),
+        2 => (any::<u16>(), any::<u16>()).prop_map(|(i, other)| MMut::AuntFromOther { i, other }),
+        2 => any::<u16>().prop_map(|other| MMut::AuntsOfOther { other }),
+        2 => (0u8..32, 0u8..8).prop_map(|(pos, bit)| MMut::LeafHashBit { pos, bit }),
+        2 => (any::<u16>(), 0u8..8).prop_map(|(pos, bit)| MMut::LeafBit { pos, bit }),
+        1 => any::<u8>().prop_map(MMut::LeafAppend),
+        1 => Just(MMut::LeafEmpty),
+        2 => any::<u16>().prop_map(|j| MMut::LeafOther { j }),
+        2 => any::<u16>().prop_map(|j| MMut::LeafAndHashOther { j }),
+        2 => (0u8..32, 0u8..8).prop_map(|(pos, bit)| MMut::RootBit { pos, bit }),
+        1 => Just(MMut::ShortHash),
+    ]
+}
+
+fn make_leaves(n: usize, kind: LeafKind, seed: u64) -> Vec<Vec<u8>> {
+    let mut rng = Prng::new(seed);
+    let pool: Vec<Vec<u8>> = (0..3).map(|_| rng.bytes(5)).collect();
+    (0..n)
+        .map(|_| match kind {
+            LeafKind::Random => {
+                let l = rng.below(65) as usize;
+                rng.bytes(l)
+            }
+            LeafKind::Short => {
+                let l = rng.below(2) as usize;
+                rng.bytes(l).iter().map(|b| b & 1).collect()
+            }
+            LeafKind::Dups => pool[rng.below(3) as usize].clone(),
+            LeafKind::Fixed32 => rng.bytes(32),
+        })
+        .collect()
+}
+
+struct Tree {
+    leaves: Vec<Vec<u8>>,
+    root: [u8; 32],
+}
+
+fn honest_raw(t: &Tree, i: usize) -> RawMerkleProof {
+    RawMerkleProof {
+        total: t.leaves.len() as i64,
+        index: i as i64,
+        leaf_hash: refs::rfc_leaf(&t.leaves[i]).to_vec(),
+        aunts: refs::rfc_proof(&t.leaves, i).into_iter().map(|a| a.to_vec()).collect(),
+    }
+}
+
+/// Judge one (proof, leaf, root) triple against the reference.
+fn judge_merkle(obs: &mut Obs, t: &Tree, raw: &RawMerkleProof, leaf: &[u8], root: [u8; 32], honest_index: usize, label: &str, changed: bool) -> Result<(), Failure> {
+    let d = digest_bytes(&raw.encode_to_vec()) ^ digest_bytes(leaf).rotate_left(17) ^ digest_bytes(&root).rotate_left(41);
+    obs.eval(changed.then_some(d));
+    obs.label(label);
+    let wellformed = raw.index >= 0 && raw.total > 0;
+    if wellformed && raw.index >= raw.total {
+        obs.label("index>=total");
+    } else if wellformed && raw.index != honest_index as i64 {
+        obs.label("wrong-index<total");
+    }
+    if wellformed && raw.total != t.leaves.len() as i64 {
+        obs.label("wrong-total");
+    }
+    let p = match MerkleProof::try_from(raw.clone()) {
+        Ok(p) => p,
+        Err(_) => {
+            obs.label("merkle-decode-rejected");
+            return Ok(());
+        }
+    };
+    let accepted = match no_panic(|| p.verify(leaf, root).is_ok()) {
+        Ok(a) => a,
+        Err(rec) => {
+            obs.label("panicked-instead-of-rejecting");
+            obs.note(format!("MerkleProof::verify panicked on an adversarial proof (treated as not accepted; never-panics is C16's): {rec}"));
+            false
+        }
+    };
+    let reference = ref_merkle_check(raw, leaf, &root);
+    if accepted {
+        obs.label("merkle-accepted");
+        let what = || format!("index={} total={} aunts={} (real tree: {} leaves, honest index {honest_index}), mutation {label}", raw.index, raw.total, raw.aunts.len(), t.leaves.len());
+        match &reference {
+            Ok(()) => {}
+            Err(Reject::IndexGeTotal) => obs.fail("C13:merkle-index-ge-total", format!("MerkleProof::verify accepted a proof whose index is not below its leaf count: {}", what()))?,
+            Err(r) => obs.fail("C13:merkle-accepts-unsound-proof", format!("MerkleProof::verify accepted a proof the RFC-6962 reference rejects ({r:?}): {}", what()))?,
+        }
+        // position binding against the real tree (independent of the reference recomputation)
+        if raw.total == t.leaves.len() as i64 && root == t.root && raw.index >= 0 && (raw.index as usize) < t.leaves.len() && t.leaves[raw.index as usize] != leaf {
+            obs.fail("C13:merkle-position-not-bound", format!("accepted leaf is not the leaf at the proof's index of the real tree: {}", what()))?;
+        }
+    } else if reference.is_ok() {
+        // not required by the property for mutated proofs; honest ones are asserted by the caller
+        obs.label("reference-valid-but-rejected");
+    }
+    if !changed && !accepted {
+        obs.fail("C13:merkle-honest-rejected", format!("honest proof for index {honest_index} of {} leaves rejected", t.leaves.len()))?;
+    }
+    Ok(())
+}
+
+fn check_merkle(case: &MCase, obs: &mut Obs) -> Result<(), Failure> {
+    let n = case.n.max(1) as usize;
+    let leaves = make_leaves(n, case.kind, case.seed);
+    let t = Tree { root: refs::rfc_root(&leaves), leaves };
+    let indices: Vec<usize> = if n <= 64 {
+        (0..n).collect()
+    } else {
+        let mut v: Vec<usize> = case.idx.iter().map(|s| pick(*s, n)).collect();
+        v.extend([0, n - 1, refs::split_point(n) - 1, refs::split_point(n)]);
+        v.sort();
+        v.dedup();
+        v
+    };
+    obs.label(if n <= 64 { "tree<=64-every-index" } else { "tree>64-sampled-indices" });
+    for &i in &indices {
+        let honest = honest_raw(&t, i);
+        // the code's own prover agrees with the reference
+        match MerkleProof::new(i, &t.leaves) {
+            Ok((p, root)) => {
+                let same = root == t.root && RawMerkleProof::from(p) == honest;
+                obs.check(same, "C13:merkle-new-differs-from-rfc6962", || format!("MerkleProof::new({i}, {n} leaves) differs from the RFC-6962 reference proof/root"))?;
+            }
+            Err(e) => obs.fail("C13:merkle-new-failed", format!("MerkleProof::new({i}, {n} leaves) failed: {e}"))?,
+        }
+        judge_merkle(obs, &t, &honest, &t.leaves[i], t.root, i, "honest", false)?;
+
+        // systematic: index and total
+        let mut idx_vals: Vec<i64> = if n <= 64 { (0..2 * n as i64 + 2).collect() } else { vec![0, i as i64 + 1, i as i64 - 1, n as i64 - 1, n as i64, n as i64 + 1, 2 * n as i64] };
+        idx_vals.extend([u32::MAX as i64, i64::MAX]);
+        // aliases: same low bits beyond the tree
+        idx_vals.extend([i as i64 + refs::round_up_pow2(n as u64) as i64, i as i64 + 2 * refs::round_up_pow2(n as u64) as i64, i as i64 + n as i64]);
+        for v in idx_vals {
+            if v == i as i64 || v < 0 {
+                continue;
+            }
+            let mut r = honest.clone();
+            r.index = v;
+            judge_merkle(obs, &t, &r, &t.leaves[i], t.root, i, "sys-index", true)?;
+        }
+        for v in [n as i64 - 1, n as i64 + 1, 2 * n as i64, 1, refs::round_up_pow2(n as u64) as i64, i as i64, i as i64 + 1, u32::MAX as i64 + 1, i64::MAX, 0, -1] {
+            if v == n as i64 {
+                continue;
+            }
+            let mut r = honest.clone();
+            r.total = v;
+            judge_merkle(obs, &t, &r, &t.leaves[i], t.root, i, "sys-total", true)?;
+        }
+        // every other leaf presented with this proof (small trees)
+        if n <= 16 {
+            for j in 0..n {
+                if t.leaves[j] != t.leaves[i] {
+                    judge_merkle(obs, &t, &honest, &t.leaves[j], t.root, i, "sys-other-leaf", true)?;
+                }
+            }
+        }
+        // generated mutations
+        for m in &case.muts {
+            let mut r = honest.clone();
+            let mut leaf = t.leaves[i].clone();
+            let mut root = t.root;
+            let label: &str;
+            match m {
+                MMut::Index(v) => {
+                    r.index = *v;
+                    label = "index-abs";
+                }
+                MMut::IndexRel(d) => {
+                    r.index += *d as i64;
+                    label = "index-rel";
+                }
+                MMut::Total(v) => {
+                    r.total = *v;
+                    label = "total-abs";
+                }
+                MMut::TotalRel(d) => {
+                    r.total += *d as i64;
+                    label = "total-rel";
+                }
+                MMut::TotalMul2 => {
+                    r.total *= 2;
+                    label = "total-x2";
+                }
+                MMut::IndexAndTotal { di, dt } => {
+                    r.index += *di as i64;
+                    r.total += *dt as i64;
+                    label = "index-and-total";
+                }
+                MMut::AuntBit { i: a, pos, bit } => {
+                    if r.aunts.is_empty() {
+                        continue;
+                    }
+                    let k = pick(*a, r.aunts.len());
+                    flip(&mut r.aunts[k], *pos as usize, *bit);
+                    label = "aunt-altered";
+                }
+                MMut::AuntDrop { i: a } => {
+                    if r.aunts.is_empty() {
+                        continue;
+                    }
+                    let k = pick(*a, r.aunts.len());
+                    r.aunts.remove(k);
+                    label = "aunt-dropped";
+                }
+                MMut::AuntDup { i: a } => {
+                    if r.aunts.is_empty() {
+                        continue;
+                    }
+                    let k = pick(*a, r.aunts.len());
+                    let x = r.aunts[k].clone();
+                    r.aunts.insert(k, x);
+                    label = "aunt-duplicated";
+                }
+                MMut::AuntSwap { i: a, j: b } => {
+                    if r.aunts.len() < 2 {
+                        continue;
+                    }
+                    let (x, y) = (pick(*a, r.aunts.len()), pick(*b, r.aunts.len()));
+                    r.aunts.swap(x, y);
+                    label = "aunts-reordered";
+                }
+                MMut::AuntReverse => {
+                    r.aunts.reverse();
+                    label = "aunts-reordered";
+                }
+                MMut::AuntAppend(x) => {
+                    r.aunts.push(x.to_vec());
+                    label = "aunt-appended";
+                }
+                MMut::AuntFromOther { i: a, other } => {
+                    let o = honest_raw(&t, pick(*other, n));
+                    if r.aunts.is_empty() || o.aunts.is_empty() {
+                        continue;
+                    }
+                    let k = pick(*a, r.aunts.len().min(o.aunts.len()));
+                    r.aunts[k] = o.aunts[k].clone();
+                    label = "aunt-from-other-proof";
+                }
+                MMut::AuntsOfOther { other } => {
+                    r.aunts = honest_raw(&t, pick(*other, n)).aunts;
+                    label = "aunts-of-other-proof";
+                }
+                MMut::LeafHashBit { pos, bit } => {
+                    flip(&mut r.leaf_hash, *pos as usize, *bit);
+                    label = "leaf-hash-altered";
+                }
+                MMut::LeafBit { pos, bit } => {
+                    if leaf.is_empty() {
+                        continue;
+                    }
+                    flip(&mut leaf, *pos as usize, *bit);
+                    label = "leaf-altered";
+                }
+                MMut::LeafAppend(x) => {
+                    leaf.push(*x);
+                    label = "leaf-altered";
+                }
+                MMut::LeafEmpty => {
+                    leaf.clear();
+                    label = "leaf-altered";
+                }
+                MMut::LeafOther { j } => {
+                    leaf = t.leaves[pick(*j, n)].clone();
+                    label = "other-leaf-same-proof";
+                }
+                MMut::LeafAndHashOther { j } => {
+                    leaf = t.leaves[pick(*j, n)].clone();
+                    r.leaf_hash = refs::rfc_leaf(&leaf).to_vec();
+                    label = "other-leaf-and-hash";
+                }
+                MMut::RootBit { pos, bit } => {
+                    flip(&mut root, *pos as usize, *bit);
+                    label = "root-altered";
+                }
+                MMut::ShortHash => {
+                    r.leaf_hash.pop();
+                    label = "short-hash";
+                }
+            }
+            let changed = r != honest || leaf != t.leaves[i] || root != t.root;
+            if !changed {
+                obs.label("noop-mutation-skipped");
+                continue;
+            }
+            judge_merkle(obs, &t, &r, &leaf, root, i, label, true)?;
+        }
+    }
+    Ok(())
+}
+
+// =================================================================================================== row proofs
+
+#[derive(Clone, Debug, Serialize, Deserialize)]
+pub enum RMut {
+    AlterRoot { i: u16, pos: u8, bit: u8 },
+    AlterAunt { i: u16, j: u16, pos: u8, bit: u8 },
+    AlterLeafHash { i: u16, pos: u8, bit: u8 },
+    DropRoot { i: u16 },
+    DropProof { i: u16 },
+    DropPair { i: u16 },
+    DupPair { i: u16 },
+    ShiftStart(i8),
+    ShiftEnd(i8),
+    ShiftBoth(i8),
+    SetSpan { start: u32, end: u32 },
+    SwapRoots { i: u16, j: u16 },
+    SwapPairs { i: u16, j: u16 },
+    /// root i replaced by the root of another row (proof kept)
+    RootOfOtherRow { i: u16, row: u16 },
+    /// root and proof i replaced by the consistent pair of another row / of a column
+    PairOfOtherRow { i: u16, row: u16 },
+    PairOfColumn { i: u16, col: u16 },
+    MerkleIndex { i: u16, index: i64 },
+    MerkleTotal { i: u16, total: i64 },
+    HashBit { pos: u8, bit: u8 },
+    HashNone,
+    /// the whole proof taken from another square
+    OtherSquare,
+    /// start 0, end 65535, no roots, no proofs
+    Empty65535,
+    EmptyLists,
+}
+
+fn rmut_strategy() -> impl Strategy<Value = RMut> {
+    prop_oneof![
+        4 => (any::<u16>(), 0u8..90, 0u8..8).prop_map(|(i, pos, bit)| RMut::AlterRoot { i, pos, bit }),
+        4 => (any::<u16>(), any::<u16>(), 0u8..32, 0u8..8).prop_map(|(i, j, pos, bit)| RMut::AlterAunt { i, j, pos, bit }),
+        2 => (any::<u16>(), 0u8..32, 0u8..8).prop_map(|(i, pos, bit)| RMut::AlterLeafHash { i, pos, bit }),
+        2 => any::<u16>().prop_map(|i| RMut::DropRoot { i }),
+        2 => any::<u16>().prop_map(|i| RMut::DropProof { i }),
+        3 => any::<u16>().prop_map(|i| RMut::DropPair { i }),
+        2 => any::<u16>().prop_map(|i| RMut::DupPair { i }),
+        2 => (-3i8..=3).prop_map(RMut::ShiftStart),
+        2 => (-3i8..=3).prop_map(RMut::ShiftEnd),
+        1 => (-3i8..=3).prop_map(RMut::ShiftBoth),
+        2 => (prop_oneof![0u32..40, Just(65535u32), Just(65536u32), any::<u32>()], prop_oneof![0u32..40, Just(65535u32), Just(65536u32), any::<u32>()]).prop_map(|(start, end)| RMut::SetSpan { start, end }),
+        2 => (any::<u16>(), any::<u16>()).prop_map(|(i, j)| RMut::SwapRoots { i, j }),
+        1 => (any::<u16>(), any::<u16>()).prop_map(|(i, j)| RMut::SwapPairs { i, j }),
+        2 => (any::<u16>(), any::<u16>()).prop_map(|(i, row)| RMut::RootOfOtherRow { i, row }),
+        1 => (any::<u16>(), any::<u16>()).prop_map(|(i, row)| RMut::PairOfOtherRow { i, row }),
+        1 => (any::<u16>(), any::<u16>()).prop_map(|(i, col)| RMut::PairOfColumn { i, col }),
+        2 => (any::<u16>(), prop_oneof![0i64..140, Just(i64::MAX), Just(u32::MAX as i64)]).prop_map(|(i, index)| RMut::MerkleIndex { i, index }),
+        2 => (any::<u16>(), prop_oneof![1i64..140, Just(i64::MAX), Just(u32::MAX as i64 + 1)]).prop_map(|(i, total)| RMut::MerkleTotal { i, total }),
+        2 => (0u8..32, 0u8..8).prop_map(|(pos, bit)| RMut::HashBit { pos, bit }),
+        1 => Just(RMut::HashNone),
+        1 => Just(RMut::OtherSquare),
+        1 => Just(RMut::Empty65535),
+        1 => Just(RMut::EmptyLists),
+    ]
+}
+
+struct RowTruth<'a> {
+    sq: &'a Square,
+    other: Option<&'a Square>,
+    /// row roots then column roots, raw 90-byte encodings
+    all_roots: Vec<Vec<u8>>,
+    hash: [u8; 32],
+}
+
+fn row_truth<'a>(sq: &'a Square, other: Option<&'a Square>) -> Result<RowTruth<'a>, Failure> {
+    let all_roots: Vec<Vec<u8>> = sq.dah.row_roots().iter().chain(sq.dah.column_roots()).map(|r| r.to_array().to_vec()).collect();
+    let Hash::Sha256(hash) = sq.dah.hash() else { return Err(Failure::new("gen", "dah.hash() is None")) };
+    // the DAH hash itself against the reference (RFC-6962 over row then column roots)
+    if refs::rfc_root(&all_roots) != hash {
+        return Err(Failure::new("C13:dah-hash-differs-from-rfc6962", "DataAvailabilityHeader::hash differs from the RFC-6962 root over row and column roots"));
+    }
+    Ok(RowTruth { sq, other, all_roots, hash })
+}
+
+fn pair_of(t: &RowTruth, leaf_index: usize) -> (Vec<u8>, RawMerkleProof) {
+    let r = t.all_roots[leaf_index].clone();
+    let p = RawMerkleProof {
+        total: t.all_roots.len() as i64,
+        index: leaf_index as i64,
+        leaf_hash: refs::rfc_leaf(&r).to_vec(),
+        aunts: refs::rfc_proof(&t.all_roots, leaf_index).into_iter().map(|a| a.to_vec()).collect(),
+    };
+    (r, p)
+}
+
+/// Apply a row-proof mutation; None when it does not apply to this proof.
+fn apply_rmut(raw: &mut RawRowProof, root: &mut Option<[u8; 32]>, m: &RMut, t: &RowTruth) -> Option<&'static str> {
+    let n = raw.row_roots.len();
+    let w = t.sq.dah.row_roots().len();
+    Some(match m {
+        RMut::AlterRoot { i, pos, bit } => {
+            if n == 0 {
+                return None;
+            }
+            let k = pick(*i, n);
+            flip(&mut raw.row_roots[k], *pos as usize, *bit);
+            "row:root-altered"
+        }
+        RMut::AlterAunt { i, j, pos, bit } => {
+            if raw.proofs.is_empty() {
+                return None;
+            }
+            let k = pick(*i, raw.proofs.len());
+            if raw.proofs[k].aunts.is_empty() {
+                return None;
+            }
+            let a = pick(*j, raw.proofs[k].aunts.len());
+            flip(&mut raw.proofs[k].aunts[a], *pos as usize, *bit);
+            "row:inner-node-altered"
+        }
+        RMut::AlterLeafHash { i, pos, bit } => {
+            if raw.proofs.is_empty() {
+                return None;
+            }
+            let k = pick(*i, raw.proofs.len());
+            flip(&mut raw.proofs[k].leaf_hash, *pos as usize, *bit);
+            "row:leaf-hash-altered"
+        }
+        RMut::DropRoot { i } => {
+            if n == 0 {
+                return None;
+            }
+            raw.row_roots.remove(pick(*i, n));
+            "row:root-dropped"
+        }
+        RMut::DropProof { i } => {
+            if raw.proofs.is_empty() {
+                return None;
+            }
+            let k = pick(*i, raw.proofs.len());
+            raw.proofs.remove(k);
+            "row:proof-dropped"
+        }
+        RMut::DropPair { i } => {
+            if n == 0 || raw.proofs.len() != n {
+                return None;
+            }
+            let k = pick(*i, n);
+            raw.row_roots.remove(k);
+            raw.proofs.remove(k);
+            "row:pair-dropped-span-kept"
+        }
+        RMut::DupPair { i } => {
+            if n == 0 || raw.proofs.len() != n {
+                return None;
+            }
+            let k = pick(*i, n);
+            let (r, p) = (raw.row_roots[k].clone(), raw.proofs[k].clone());
+            raw.row_roots.insert(k, r);
+            raw.proofs.insert(k, p);
+            "row:pair-duplicated-span-kept"
+        }
+        RMut::ShiftStart(d) => {
+            if *d == 0 {
+                return None;
+            }
+            raw.start_row = (raw.start_row as i64 + *d as i64).max(0) as u32;
+            "row:start-shifted"
+        }
+        RMut::ShiftEnd(d) => {
+            if *d == 0 {
+                return None;
+            }
+            raw.end_row = (raw.end_row as i64 + *d as i64).max(0) as u32;
+            "row:end-shifted"
+        }
+        RMut::ShiftBoth(d) => {
+            if *d == 0 || (raw.start_row as i64 + *d as i64) < 0 {
+                return None;
+            }
+            raw.start_row = (raw.start_row as i64 + *d as i64) as u32;
+            raw.end_row = (raw.end_row as i64 + *d as i64) as u32;
+            "row:both-shifted-span-kept"
+        }
+        RMut::SetSpan { start, end } => {
+            raw.start_row = *start;
+            raw.end_row = *end;
+            "row:span-set"
+        }
+        RMut::SwapRoots { i, j } => {
+            if n < 2 {
+                return None;
+            }
+            raw.row_roots.swap(pick(*i, n), pick(*j, n));
+            "row:roots-swapped"
+        }
+        RMut::SwapPairs { i, j } => {
+            if n < 2 || raw.proofs.len() != n {
+                return None;
+            }
+            let (a, b) = (pick(*i, n), pick(*j, n));
+            raw.row_roots.swap(a, b);
+            raw.proofs.swap(a, b);
+            "row:pairs-swapped"
+        }
+        RMut::RootOfOtherRow { i, row } => {
+            if n == 0 {
+                return None;
+            }
+            raw.row_roots[pick(*i, n)] = t.all_roots[pick(*row, w)].clone();
+            "row:root-of-other-row"
+        }
+        RMut::PairOfOtherRow { i, row } => {
+            if n == 0 || raw.proofs.len() != n {
+                return None;
+            }
+            let k = pick(*i, n);
+            let (r, p) = pair_of(t, pick(*row, w));
+            raw.row_roots[k] = r;
+            raw.proofs[k] = p;
+            "row:consistent-pair-of-other-row"
+        }
+        RMut::PairOfColumn { i, col } => {
+            if n == 0 || raw.proofs.len() != n {
+                return None;
+            }
+            let k = pick(*i, n);
+            let (r, p) = pair_of(t, w + pick(*col, w));
+            raw.row_roots[k] = r;
+            raw.proofs[k] = p;
+            "row:consistent-pair-of-column"
+        }
+        RMut::MerkleIndex { i, index } => {
+            if raw.proofs.is_empty() {
+                return None;
+            }
+            let k = pick(*i, raw.proofs.len());
+            raw.proofs[k].index = *index;
+            "row:merkle-index"
+        }
+        RMut::MerkleTotal { i, total } => {
+            if raw.proofs.is_empty() {
+                return None;
+            }
+            let k = pick(*i, raw.proofs.len());
+            raw.proofs[k].total = *total;
+            "row:merkle-total"
+        }
+        RMut::HashBit { pos, bit } => {
+            let mut h = (*root)?;
+            flip(&mut h, *pos as usize, *bit);
+            *root = Some(h);
+            "row:data-hash-altered"
+        }
+        RMut::HashNone => {
+            *root = None;
+            "row:data-hash-none"
+        }
+        RMut::OtherSquare => {
+            let o = t.other?;
+            let ow = o.dah.row_roots().len() as u16;
+            let e = (raw.end_row.min(ow as u32 - 1)) as u16;
+            let s = (raw.start_row as u16).min(e);
+            *raw = RawRowProof::from(o.dah.row_proof(s..=e).ok()?);
+            "row:proof-of-other-square"
+        }
+        RMut::Empty65535 => {
+            *raw = RawRowProof { row_roots: vec![], proofs: vec![], root: vec![], start_row: 0, end_row: 65535 };
+            "row:empty-0..65535"
+        }
+        RMut::EmptyLists => {
+            raw.row_roots.clear();
+            raw.proofs.clear();
+            "row:lists-emptied"
+        }
+    })
+}
+
+fn row_reject_sig(r: &Reject) -> &'static str {
+    match r {
+        Reject::Span | Reject::ListLengths => "C13:rowproof-span-mismatch-accepted",
+        Reject::IndexGeTotal => "C13:merkle-index-ge-total",
+        _ => "C13:rowproof-accepts-unsound-proof",
+    }
+}
+
+/// Judge a (possibly mutated) row proof against `root`. Returns whether it was accepted.
+fn judge_row(obs: &mut Obs, t: &RowTruth, raw: &RawRowProof, root: Option<[u8; 32]>, label: &str, changed: bool) -> Result<bool, Failure> {
+    let d = digest_bytes(&raw.encode_to_vec()) ^ root.map(|r| digest_bytes(&r)).unwrap_or(7).rotate_left(29);
+    obs.eval(changed.then_some(d));
+    obs.label(label);
+    let reference = ref_row_proof_check(raw, root.as_ref());
+    if changed && matches!(reference, Err(Reject::Span | Reject::ListLengths)) {
+        obs.label("span/roots-mismatch");
+    }
+    let p = match RowProof::try_from(raw.clone()) {
+        Ok(p) => p,
+        Err(_) => {
+            obs.label("row-decode-rejected");
+            return Ok(false);
+        }
+    };
+    let hash = root.map(Hash::Sha256).unwrap_or(Hash::None);
+    let what = || format!("start_row={} end_row={} roots={} proofs={} ({label}; DAH width {})", raw.start_row, raw.end_row, raw.row_roots.len(), raw.proofs.len(), t.sq.dah.row_roots().len());
+    let accepted = match no_panic(|| p.verify(hash).is_ok()) {
+        Ok(a) => a,
+        Err(rec) => {
+            if rec.contains("overflow") && rec.contains("data_availability_header") {
+                // with overflow checks off the same arithmetic wraps and the span test passes
+                obs.fail(
+                    "C13:rowproof-span-u16-overflow",
+                    format!("RowProof::verify overflowed computing end_row - start_row + 1 in u16 ({rec}); in builds without overflow checks the span wraps to 0 and an empty proof is accepted for 65536 rows: {}", what()),
+                )?;
+            } else {
+                obs.label("panicked-instead-of-rejecting");
+                obs.note(format!("RowProof::verify panicked on an adversarial proof (treated as not accepted; never-panics is C16's): {rec}"));
+            }
+            false
+        }
+    };
+    if accepted {
+        if changed {
+            obs.label("row-mutant-accepted");
+        }
+        if let Err(r) = &reference {
+            obs.fail(row_reject_sig(r), format!("RowProof::verify accepted a proof the reference rejects ({r:?}): {}", what()))?;
+        }
+        if root == Some(t.hash) {
+            if let Some(bad) = raw.row_roots.iter().position(|r| !t.all_roots.contains(r)) {
+                obs.fail("C13:rowproof-proves-foreign-root", format!("accepted row proof contains root #{bad} that is not a root of the DAH: {}", what()))?;
+            }
+        }
+    } else if !changed {
+        obs.fail("C13:rowproof-honest-rejected", format!("honest row proof rejected: {}", what()))?;
+    }
+    Ok(accepted)
+}
+
+#[derive(Clone, Debug, Serialize, Deserialize)]
+pub struct RCase {
+    pub square: SquareSpec,
+    pub other: SquareSpec,
+    pub ranges: Vec<(u16, u16)>,
+    pub muts: Vec<RMut>,
+}
+
+fn check_rows(case: &RCase, obs: &mut Obs) -> Result<(), Failure> {
+    let sq = build_square(&case.square, AppVersion::V3);
+    let other = build_square(&case.other, AppVersion::V3);
+    let t = row_truth(&sq, Some(&other))?;
+    let w = sq.dah.row_roots().len() as u16;
+    obs.label(&format!("dah-width-{w}"));
+    let all_ranges = w <= obs.tier.pick(16, 32);
+    let sampled: Vec<(u16, u16)> = case
+        .ranges
+        .iter()
+        .map(|(a, b)| {
+            let (a, b) = (pick(*a, w as usize) as u16, pick(*b, w as usize) as u16);
+            (a.min(b), a.max(b))
+        })
+        .collect();
+    let mut ranges: Vec<(u16, u16)> = if all_ranges { (0..w).flat_map(|s| (s..w).map(move |e| (s, e))).collect() } else { sampled.clone() };
+    if !all_ranges {
+        ranges.extend([(0, 0), (0, w - 1), (w - 1, w - 1), (w / 2 - 1, w / 2)]);
+    }
+    ranges.sort();
+    ranges.dedup();
+    obs.label(if all_ranges { "every-row-range" } else { "sampled-row-ranges" });
+    for (ri, &(s, e)) in ranges.iter().enumerate() {
+        let p = match sq.dah.row_proof(s..=e) {
+            Ok(p) => p,
+            Err(err) => {
+                obs.fail("C13:row-proof-build-failed", format!("dah.row_proof({s}..={e}) failed on a DAH of width {w}: {err}"))?;
+                continue;
+            }
+        };
+        // directly, as built
+        obs.eval(None);
+        obs.label("row:honest-direct");
+        if let Err(err) = p.verify(sq.dah.hash()) {
+            obs.fail("C13:rowproof-honest-rejected", format!("dah.row_proof({s}..={e}).verify(dah.hash()) failed (width {w}): {err}"))?;
+        }
+        let honest = RawRowProof::from(p);
+        if e > s {
+            obs.label("row:multi-row-range");
+        }
+        // through the wire form, judged by the reference too
+        judge_row(obs, &t, &honest, Some(t.hash), "row:honest", false)?;
+        // mutations: on the sampled ranges (all ranges of small DAHs, every 7th otherwise)
+        let mutate_here = w <= 4 || sampled.contains(&(s, e)) || ri % 7 == 0;
+        if !mutate_here {
+            continue;
+        }
+        // systematic: one-sided span changes, dropped last pair
+        let sys = [RMut::ShiftEnd(1), RMut::ShiftEnd(-1), RMut::ShiftStart(1), RMut::ShiftStart(-1), RMut::DropPair { i: 65535 }, RMut::DropRoot { i: 0 }, RMut::DropProof { i: 65535 }];
+        for m in sys.iter().chain(case.muts.iter()) {
+            let mut raw = honest.clone();
+            let mut root = Some(t.hash);
+            let Some(label) = apply_rmut(&mut raw, &mut root, m, &t) else { continue };
+            if raw == honest && root == Some(t.hash) {
+                obs.label("noop-mutation-skipped");
+                continue;
+            }
+            judge_row(obs, &t, &raw, root, label, true)?;
+        }
+    }
+    // once per DAH: the (0, 65535) empty proof
+    let mut raw = RawRowProof::default();
+    let mut root = Some(t.hash);
+    let label = apply_rmut(&mut raw, &mut root, &RMut::Empty65535, &t).unwrap();
+    judge_row(obs, &t, &raw, root, label, true)?;
+    Ok(())
+}
+
+// =================================================================================================== share proofs
+
+#[derive(Clone, Debug, Serialize, Deserialize)]
+pub enum SMut {
+    AlterShare { i: u16, pos: u16, bit: u8 },
+    SwapShares { i: u16, j: u16 },
+    DropShare { i: u16 },
+    DupShare { i: u16 },
+    /// share i replaced by the share at ODS position (r, c)
+    ShareFromElsewhere { i: u16, r: u16, c: u16 },
+    AlterNmtNode { p: u16, i: u16, pos: u8, bit: u8 },
+    DropNmtNode { p: u16, i: u16 },
+    DupNmtNode { p: u16, i: u16 },
+    SwapNmtNodes { p: u16, i: u16, j: u16 },
+    ShiftNmtRange { p: u16, ds: i8, de: i8 },
+    HugeNmtRanges,
+    DropShareProof { p: u16 },
+    DupShareProof { p: u16 },
+    AbsenceLeaf { p: u16 },
+    NamespaceBit { pos: u8, bit: u8 },
+    NamespaceVersion(u32),
+    Row(RMut),
+    NoRowProof,
+}
+
+fn smut_strategy() -> impl Strategy<Value = SMut> {
+    prop_oneof![
+        5 => (any::<u16>(), 0u16..512, 0u8..8).prop_map(|(i, pos, bit)| SMut::AlterShare { i, pos, bit }),
+        2 => (any::<u16>(), any::<u16>()).prop_map(|(i, j)| SMut::SwapShares { i, j }),
+        2 => any::<u16>().prop_map(|i| SMut::DropShare { i }),
+        1 => any::<u16>().prop_map(|i| SMut::DupShare { i }),
+        2 => (any::<u16>(), any::<u16>(), any::<u16>()).prop_map(|(i, r, c)| SMut::ShareFromElsewhere { i, r, c }),
+        5 => (any::<u16>(), any::<u16>(), 0u8..90, 0u8..8).prop_map(|(p, i, pos, bit)| SMut::AlterNmtNode { p, i, pos, bit }),
+        2 => (any::<u16>(), any::<u16>()).prop_map(|(p, i)| SMut::DropNmtNode { p, i }),
+        1 => (any::<u16>(), any::<u16>()).prop_map(|(p, i)| SMut::DupNmtNode { p, i }),
+        1 => (any::<u16>(), any::<u16>(), any::<u16>()).prop_map(|(p, i, j)| SMut::SwapNmtNodes { p, i, j }),
+        4 => (any::<u16>(), -2i8..=2, -2i8..=2).prop_map(|(p, ds, de)| SMut::ShiftNmtRange { p, ds, de }),
+        1 => Just(SMut::HugeNmtRanges),
+        2 => any::<u16>().prop_map(|p| SMut::DropShareProof { p }),
+        1 => any::<u16>().prop_map(|p| SMut::DupShareProof { p }),
+        1 => any::<u16>().prop_map(|p| SMut::AbsenceLeaf { p }),
+        2 => (0u8..28, 0u8..8).prop_map(|(pos, bit)| SMut::NamespaceBit { pos, bit }),
+        1 => prop_oneof![Just(255u32), Just(1u32), Just(256u32)].prop_map(SMut::NamespaceVersion),
+        8 => rmut_strategy().prop_map(SMut::Row),
+        1 => Just(SMut::NoRowProof),
+    ]
+}
+
+#[derive(Clone, Debug, Serialize, Deserialize)]
+pub struct SCase {
+    pub square: SquareSpec,
+    pub other: SquareSpec,
+    /// (namespace run selector, start selector, end selector)
+    pub picks: Vec<(u16, u16, u16)>,
+    pub muts: Vec<SMut>,
+}
+
+/// maximal runs of equal-namespace shares in the row-major ODS
+fn ns_runs(sq: &Square) -> Vec<(usize, usize)> {
+    let mut out = Vec::new();
+    let mut s = 0;
+    for i in 1..=sq.ods.len() {
+        if i == sq.ods.len() || sq.ods[i][..refs::NS] != sq.ods[s][..refs::NS] {
+            out.push((s, i));
+            s = i;
+        }
+    }
+    out
+}
+
+/// Honest share proof for ODS positions [x, y) (one namespace): NMT range proofs from the reference, row proof from the DAH.
+fn honest_share_proof(sq: &Square, x: usize, y: usize) -> Result<RawShareProof, Failure> {
+    let k = sq.dah.row_roots().len() / 2;
+    let (r0, r1) = (x / k, (y - 1) / k);
+    let mut share_proofs = Vec::new();
+    for r in r0..=r1 {
+        let c0 = if r == r0 { x % k } else { 0 };
+        let c1 = if r == r1 { (y - 1) % k + 1 } else { k };
+        let leaves = axis_leaves(&sq.eds, true, r as u16);
+        let nodes = axis_nodes(&leaves);
+        // the reference row root must be the DAH's (guards the oracle itself)
+        if refs::nmt_root(&nodes).to_bytes().to_vec() != sq.dah.row_root(r as u16).unwrap().to_array().to_vec() {
+            return Err(Failure::new("gen", format!("reference NMT root of row {r} differs from the DAH's")));
+        }
+        share_proofs.push(RawNmtProof {
+            start: c0 as i32,
+            end: c1 as i32,
+            nodes: ref_nmt_range_proof(&nodes, c0, c1).iter().map(|n| n.to_bytes().to_vec()).collect(),
+            leaf_hash: vec![],
+        });
+    }
+    let ns = &sq.ods[x][..refs::NS];
+    let row_proof = sq.dah.row_proof(r0 as u16..=r1 as u16).map_err(|e| Failure::new("C13:row-proof-build-failed", format!("row_proof({r0}..={r1}): {e}")))?;
+    Ok(RawShareProof {
+        data: sq.ods[x..y].to_vec(),
+        share_proofs,
+        namespace_id: ns[1..].to_vec(),
+        row_proof: Some(RawRowProof::from(row_proof)),
+        namespace_version: ns[0] as u32,
+    })
+}
+
+fn nmt_bounds(p: &RawNmtProof) -> (u32, u32) {
+    // the decoding rule of the code under test: i32 -> i64 -> u32
+    ((p.start as i64) as u32, (p.end as i64) as u32)
+}
+
+/// Why an accepted share proof is unsound (None = fine). Only meaningful under the real DAH hash.
+fn share_unsound(t: &RowTruth, raw: &RawShareProof, root: Option<[u8; 32]>) -> Option<(&'static str, String)> {
+    let Some(rp) = &raw.row_proof else { return Some(("C13:shareproof-structure-mismatch-accepted", "no row proof".into())) };
+    if let Err(r) = ref_row_proof_check(rp, root.as_ref()) {
+        return Some((row_reject_sig(&r), format!("its row proof is rejected by the reference ({r:?})")));
+    }
+    if raw.share_proofs.len() != rp.row_roots.len() {
+        return Some(("C13:shareproof-structure-mismatch-accepted", format!("{} NMT proofs for {} row roots", raw.share_proofs.len(), rp.row_roots.len())));
+    }
+    let mut need = 0u64;
+    for p in &raw.share_proofs {
+        let (s, e) = nmt_bounds(p);
+        if s >= e || !p.leaf_hash.is_empty() {
+            return Some(("C13:shareproof-structure-mismatch-accepted", format!("NMT proof with empty range or absence leaf ({s}..{e})")));
+        }
+        need += (e - s) as u64;
+    }
+    if need != raw.data.len() as u64 {
+        return Some(("C13:shareproof-structure-mismatch-accepted", format!("ranges cover {need} shares, {} presented", raw.data.len())));
+    }
+    if root != Some(t.hash) {
+        return None;
+    }
+    let mut ns = vec![raw.namespace_version as u8];
+    ns.extend_from_slice(&raw.namespace_id);
+    let w = t.sq.dah.row_roots().len();
+    let mut at = 0usize;
+    for (pi, (p, rr)) in raw.share_proofs.iter().zip(&rp.row_roots).enumerate() {
+        let (s, e) = nmt_bounds(p);
+        let chunk = &raw.data[at..at + (e - s) as usize];
+        at += (e - s) as usize;
+        // every axis (row or column) of the real square with this root
+        let axes: Vec<usize> = (0..2 * w).filter(|i| &t.all_roots[*i] == rr).collect();
+        if axes.is_empty() {
+            return Some(("C13:rowproof-proves-foreign-root", format!("root #{pi} is not a root of the DAH")));
+        }
+        let found = axes.iter().any(|&ax| {
+            let leaves = axis_leaves(&t.sq.eds, ax < w, (ax % w) as u16);
+            (0..leaves.len()).any(|o| o + chunk.len() <= leaves.len() && chunk.iter().enumerate().all(|(j, sh)| leaves[o + j].0[..] == ns[..] && &leaves[o + j].1 == sh))
+        });
+        if !found {
+            return Some((
+                "C13:shareproof-accepts-shares-not-in-rows",
+                format!("the {} shares presented for root #{pi} (declared range {s}..{e}) are not a contiguous run of leaves of that row in namespace {}", chunk.len(), hex::encode(&ns)),
+            ));
+        }
+    }
+    None
+}
+
+fn apply_smut(raw: &mut RawShareProof, root: &mut Option<[u8; 32]>, m: &SMut, t: &RowTruth) -> Option<&'static str> {
+    let nd = raw.data.len();
+    let np = raw.share_proofs.len();
+    Some(match m {
+        SMut::AlterShare { i, pos, bit } => {
+            let k = pick(*i, nd);
+            flip(&mut raw.data[k], *pos as usize, *bit);
+            "share:share-altered"
+        }
+        SMut::SwapShares { i, j } => {
+            if nd < 2 {
+                return None;
+            }
+            raw.data.swap(pick(*i, nd), pick(*j, nd));
+            "share:shares-swapped"
+        }
+        SMut::DropShare { i } => {
+            raw.data.remove(pick(*i, nd));
+            "share:share-dropped"
+        }
+        SMut::DupShare { i } => {
+            let k = pick(*i, nd);
+            let s = raw.data[k].clone();
+            raw.data.insert(k, s);
+            "share:share-duplicated"
+        }
+        SMut::ShareFromElsewhere { i, r, c } => {
+            let k = t.sq.dah.row_roots().len() / 2;
+            let s = t.sq.ods[pick(*r, k) * k + pick(*c, k)].clone();
+            raw.data[pick(*i, nd)] = s;
+            "share:share-from-elsewhere"
+        }
+        SMut::AlterNmtNode { p, i, pos, bit } => {
+            let q = &mut raw.share_proofs[pick(*p, np)];
+            if q.nodes.is_empty() {
+                return None;
+            }
+            let k = pick(*i, q.nodes.len());
+            flip(&mut q.nodes[k], *pos as usize, *bit);
+            "share:nmt-inner-node-altered"
+        }
+        SMut::DropNmtNode { p, i } => {
+            let q = &mut raw.share_proofs[pick(*p, np)];
+            if q.nodes.is_empty() {
+                return None;
+            }
+            let k = pick(*i, q.nodes.len());
+            q.nodes.remove(k);
+            "share:nmt-node-dropped"
+        }
+        SMut::DupNmtNode { p, i } => {
+            let q = &mut raw.share_proofs[pick(*p, np)];
+            if q.nodes.is_empty() {
+                return None;
+            }
+            let k = pick(*i, q.nodes.len());
+            let x = q.nodes[k].clone();
+            q.nodes.insert(k, x);
+            "share:nmt-node-duplicated"
+        }
+        SMut::SwapNmtNodes { p, i, j } => {
+            let q = &mut raw.share_proofs[pick(*p, np)];
+            if q.nodes.len() < 2 {
+                return None;
+            }
+            let (a, b) = (pick(*i, q.nodes.len()), pick(*j, q.nodes.len()));
+            q.nodes.swap(a, b);
+            "share:nmt-nodes-swapped"
+        }
+        SMut::ShiftNmtRange { p, ds, de } => {
+            if *ds == 0 && *de == 0 {
+                return None;
+            }
+            let q = &mut raw.share_proofs[pick(*p, np)];
+            q.start += *ds as i32;
+            q.end += *de as i32;
+            "share:nmt-range-shifted"
+        }
+        SMut::HugeNmtRanges => {
+            for q in &mut raw.share_proofs {
+                q.start = 0;
+                q.end = -1;
+            }
+            "share:nmt-ranges-huge"
+        }
+        SMut::DropShareProof { p } => {
+            raw.share_proofs.remove(pick(*p, np));
+            "share:nmt-proof-dropped"
+        }
+        SMut::DupShareProof { p } => {
+            let k = pick(*p, np);
+            let x = raw.share_proofs[k].clone();
+            raw.share_proofs.insert(k, x);
+            "share:nmt-proof-duplicated"
+        }
+        SMut::AbsenceLeaf { p } => {
+            let k = pick(*p, np);
+            raw.share_proofs[k].leaf_hash = t.all_roots[0].clone();
+            "share:absence-leaf-added"
+        }
+        SMut::NamespaceBit { pos, bit } => {
+            flip(&mut raw.namespace_id, *pos as usize, *bit);
+            "share:namespace-altered"
+        }
+        SMut::NamespaceVersion(v) => {
+            if raw.namespace_version == *v {
+                return None;
+            }
+            raw.namespace_version = *v;
+            "share:namespace-version-altered"
+        }
+        SMut::Row(rm) => {
+            let rp = raw.row_proof.as_mut()?;
+            apply_rmut(rp, root, rm, t)?
+        }
+        SMut::NoRowProof => {
+            raw.row_proof = None;
+            "share:row-proof-removed"
+        }
+    })
+}
+
+fn judge_share(obs: &mut Obs, t: &RowTruth, raw: &RawShareProof, root: Option<[u8; 32]>, label: &str, changed: bool, inner_node_altered: bool) -> Result<(), Failure> {
+    let d = digest_bytes(&raw.encode_to_vec()) ^ root.map(|r| digest_bytes(&r)).unwrap_or(7).rotate_left(29);
+    obs.eval(changed.then_some(d));
+    if label.starts_with("row:") {
+        obs.label(&format!("share/{label}"));
+    } else {
+        obs.label(label);
+    }
+    let p = match ShareProof::try_from(raw.clone()) {
+        Ok(p) => p,
+        Err(_) => {
+            obs.label("share-decode-rejected");
+            return Ok(());
+        }
+    };
+    let rows = raw.row_proof.as_ref().map(|r| r.row_roots.len()).unwrap_or(0);
+    let what = || format!("{} shares, {} NMT proofs (ranges {:?}), {rows} row roots, mutation {label}, ODS width {}", raw.data.len(), raw.share_proofs.len(), raw.share_proofs.iter().map(nmt_bounds).collect::<Vec<_>>(), t.sq.dah.row_roots().len() / 2);
+    let hash = root.map(Hash::Sha256).unwrap_or(Hash::None);
+    let accepted = match no_panic(|| p.verify(hash).is_ok()) {
+        Ok(a) => a,
+        Err(rec) => {
+            if rec.contains("overflow") && rec.contains("data_availability_header") {
+                obs.fail("C13:rowproof-span-u16-overflow", format!("RowProof::verify (inside ShareProof::verify) overflowed computing the span in u16 ({rec}): {}", what()))?;
+            } else {
+                obs.label("panicked-instead-of-rejecting");
+                obs.note(format!("ShareProof::verify panicked on an adversarial proof (treated as not accepted; never-panics is C16's): {rec}"));
+            }
+            false
+        }
+    };
+    if accepted {
+        if changed {
+            obs.label("share-mutant-accepted");
+        }
+        if inner_node_altered {
+            obs.fail("C13:shareproof-altered-inner-node-accepted", format!("ShareProof::verify accepted although an inner node was altered: {}", what()))?;
+        }
+        if let Some((sig, why)) = share_unsound(t, raw, root) {
+            obs.fail(sig, format!("ShareProof::verify accepted an unsound proof: {why}: {}", what()))?;
+        }
+    } else if !changed {
+        obs.fail("C13:shareproof-honest-rejected", format!("honest share proof rejected: {}", what()))?;
+    }
+    Ok(())
+}
+
+fn check_shares(case: &SCase, obs: &mut Obs) -> Result<(), Failure> {
+    let sq = build_square(&case.square, AppVersion::V3);
+    let other = build_square(&case.other, AppVersion::V3);
+    let t = row_truth(&sq, Some(&other))?;
+    let k = sq.dah.row_roots().len() / 2;
+    let runs = ns_runs(&sq);
+    let mut ranges: Vec<(usize, usize)> = Vec::new();
+    // every whole namespace run (bounded), plus generated sub-ranges
+    for r in runs.iter().take(6) {
+        ranges.push(*r);
+    }
+    for (rs, a, b) in &case.picks {
+        let (s, e) = runs[pick(*rs, runs.len())];
+        let (a, b) = (s + pick(*a, e - s), s + pick(*b, e - s));
+        ranges.push((a.min(b), a.max(b) + 1));
+    }
+    ranges.sort();
+    ranges.dedup();
+    for &(x, y) in &ranges {
+        let honest = honest_share_proof(&sq, x, y)?;
+        let multi_row = x / k != (y - 1) / k;
+        obs.label(if multi_row { "share:multi-row-range" } else { "share:single-row-range" });
+        let nsb = &sq.ods[x][..refs::NS];
+        obs.label(if nsb[0] == 0 && nsb[1..19].iter().all(|b| *b == 0) && nsb[19..28].iter().any(|b| *b != 0) { "share:user-namespace" } else { "share:reserved-namespace" });
+        judge_share(obs, &t, &honest, Some(t.hash), "share:honest", false, false)?;
+        for m in &case.muts {
+            let mut raw = honest.clone();
+            let mut root = Some(t.hash);
+            let Some(label) = apply_smut(&mut raw, &mut root, m, &t) else { continue };
+            if raw == honest && root == Some(t.hash) {
+                obs.label("noop-mutation-skipped");
+                continue;
+            }
+            let inner = matches!(m, SMut::AlterNmtNode { .. } | SMut::Row(RMut::AlterAunt { .. }));
+            judge_share(obs, &t, &raw, root, label, true, inner)?;
+        }
+    }
+    Ok(())
+}
+
+// =================================================================================================== run
+
+pub fn run(ctx: &mut Ctx) {
+    ctx.assume("reference = lv_gen::refs (RFC-6962 root/proof/recomputation, NMT hashing with ignore-max-namespace) and lv_gen::proofrefs (reference verifiers, NMT range-proof builder); sha256 collisions and second preimages are excluded");
+    ctx.assume("squares are built by lv_gen::square and extended by ExtendedDataSquare::from_ods (code under test); the reference recomputes every row root used and the DAH hash and refuses to run on a mismatch");
+    ctx.assume("a panic inside verify on an adversarial proof counts as 'not accepted' here (never-panics is property C16's), except the u16 span arithmetic of RowProof::verify, whose overflow is an acceptance in builds without overflow checks");
+    ctx.assume("not asserted (DESIGN §7): merkle indices of a row proof equal start_row+i; NMT range start equals the real column; extremes of index/total go through RawMerkleProof so the documented decoding rules apply");
+    ctx.essential(&[
+        "index>=total",
+        "wrong-index<total",
+        "wrong-total",
+        "aunt-altered",
+        "aunt-dropped",
+        "aunt-duplicated",
+        "aunts-reordered",
+        "leaf-altered",
+        "leaf-hash-altered",
+        "tree<=64-every-index",
+        "tree>64-sampled-indices",
+        "every-row-range",
+        "row:multi-row-range",
+        "span/roots-mismatch",
+        "row:root-altered",
+        "row:inner-node-altered",
+        "row:empty-0..65535",
+        "share:multi-row-range",
+        "share:single-row-range",
+        "share:user-namespace",
+        "share:share-altered",
+        "share:nmt-inner-node-altered",
+        "share:nmt-range-shifted",
+        "share/row:root-altered",
+        "share/row:inner-node-altered",
+    ]);
+
+    let mcases = ctx.tier.pick(1500, 40_000);
+    ctx.proptest(
+        "merkle",
+        "leaf lists of 1..=300 items (random sizes 0..64, very short, three-value, 32-byte), every index for <= 64 leaves, sampled above; per index: honest proof (code's prover == reference, must verify), every other index value in 0..2n+1 plus aliases and huge values, totals n+-1, 2n, 1, pow2, huge, 0, -1, other leaves under the same proof, and 6..14 generated mutations (aunt altered/dropped/duplicated/reordered/appended/foreign, leaf or leaf_hash altered, root altered, index/total absolute and relative). accepted => reference accepts and (real total/root) leaf == leaves[index]. Non-trivial = any mutated triple (distinct by encoded proof+leaf+root)",
+        mcases,
+        || {
+            (
+                prop_oneof![3 => 1u16..=16, 3 => 1u16..=64, 2 => 65u16..=300],
+                prop_oneof![4 => Just(LeafKind::Random), 1 => Just(LeafKind::Short), 1 => Just(LeafKind::Dups), 1 => Just(LeafKind::Fixed32)],
+                any::<u64>(),
+                prop::collection::vec(any::<u16>(), 4..10),
+                prop::collection::vec(mmut_strategy(), 6..14),
+            )
+                .prop_map(|(n, kind, seed, idx, muts)| MCase { n, kind, seed, idx, muts })
+        },
+        check_merkle,
+    );
+
+    let rcases = ctx.tier.pick(400, 4000);
+    let rmax = ctx.tier.pick(4u8, 5u8);
+    ctx.proptest(
+        "row-proofs",
+        "DAHs of generated squares (EDS width 2..32; thorough 64): every row range (width <= 16; thorough <= 32) or sampled ranges: dah.row_proof(range) verifies directly and through its wire form; on a subset of ranges 7 systematic + 10..20 generated mutations (root / aunt / leaf_hash altered, root/proof/pair dropped or duplicated, start/end shifted or set incl. 65535/65536, roots swapped, root or consistent pair of another row/column, merkle index/total, data hash altered/None, proof of another square, emptied lists) plus the (0, 65535) empty proof: accepted => reference accepts (lengths, unwrapped span, every merkle pair) and all roots are DAH roots. Non-trivial = mutated proof (distinct by encoding+hash)",
+        rcases,
+        move || {
+            (square_strategy(0, rmax), square_strategy(0, 2), prop::collection::vec((any::<u16>(), any::<u16>()), 3..8), prop::collection::vec(rmut_strategy(), 10..20))
+                .prop_map(|(square, other, ranges, muts)| RCase { square, other, ranges, muts })
+        },
+        check_rows,
+    );
+
+    let scases = ctx.tier.pick(700, 10_000);
+    let smax = ctx.tier.pick(4u8, 5u8);
+    ctx.proptest(
+        "share-proofs",
+        "structured and dummy squares (ODS width 2..16; thorough 32): share proofs for whole namespace runs (user and reserved namespaces) and generated sub-ranges, single- and multi-row, NMT range proofs built by the reference, row proof by the DAH, decoded from the wire form: honest must verify; 12..24 generated mutations each (share altered/swapped/dropped/duplicated/foreign, NMT node altered/dropped/duplicated/swapped, NMT range shifted or huge, NMT proof dropped/duplicated/absence leaf, namespace altered, every row-proof mutation, row proof removed): accepted => structure consistent, row proof passes the reference, every chunk is a contiguous run of real leaves of an axis with that root; altered inner node => rejected. Non-trivial = mutated proof",
+        scases,
+        move || {
+            (
+                prop_oneof![3 => structured_square_strategy(1, smax), 1 => square_strategy(1, smax)],
+                square_strategy(0, 2),
+                prop::collection::vec((any::<u16>(), any::<u16>(), any::<u16>()), 2..6),
+                prop::collection::vec(smut_strategy(), 12..24),
+            )
+                .prop_map(|(square, other, picks, muts)| SCase { square, other, picks, muts })
+        },
+        check_shares,
+    );
 }
